@@ -25,9 +25,126 @@ type Case struct {
 	Query    string       `json:"query"`
 	VarsForm string       `json:"varsForm"` // object | absent | null
 	Vars     string       `json:"vars"`
+	// Lenient: the document contains bytes that are not UTF-8 (inside a block string), so it
+	// is not valid GraphQL and has no reference value; only "no panic, never invalid JSON" is
+	// demanded.
+	Lenient bool `json:"lenient,omitempty"`
+}
+
+// collision pairs: a literal and the JSON text the gateway writes for it. A string literal
+// whose CONTENT is that text must stay a different value.
+type collidePair struct{ lit, json string }
+
+var collidePairs = map[string][]collidePair{
+	"String": {{"null", "null"}},
+	"ID":     {{"null", "null"}, {"1", "1"}, {"0", "0"}, {"-5", "-5"}, {"42", "42"}, {"123456789012", "123456789012"}},
+	"JSON": {{"null", "null"}, {"1", "1"}, {"true", "true"}, {"false", "false"}, {"1.0", "1.0"}, {"1e3", "1e3"}, {"-0", "-0"},
+		{"[1,2]", "[1,2]"}, {"[1, 2]", "[1,2]"}, {"[]", "[]"}, {"{}", "{}"}, {"{a: 1}", `{"a":1}`}, {"[null]", "[null]"},
+		{`"a"`, `"a"`}, {`""`, `""`}, {"RED", `"RED"`}, {`[true,"x"]`, `[true,"x"]`}},
+}
+
+func stringLiteralOf(content string) string {
+	r := strings.NewReplacer(`\`, `\\`, `"`, `\"`)
+	return `"` + r.Replace(content) + `"`
+}
+
+// genCollision: two or three arguments of deeply equal type whose extracted JSON spellings
+// differ only in the quotes (f(v: null) next to f(v: "null")), in either order.
+func genCollision(t *rapid.T) Case {
+	s := &ir.Schema{Scalars: []string{"JSON"}, Enums: []ir.Enum{{Name: "E0", Values: []string{"RED", "GREEN"}}}}
+	base := rapid.SampledFrom([]string{"JSON", "ID", "String", "JSON", "ID"}).Draw(t, "cbase")
+	wrap := rapid.SampledFrom([]string{"none", "none", "list", "single-for-list", "list-of-list"}).Draw(t, "cwrap")
+	nonNull := rapid.IntRange(0, 3).Draw(t, "cnn") == 0
+	outerNonNull := wrap != "none" && rapid.IntRange(0, 3).Draw(t, "couter") == 0
+	var pairs []collidePair
+	for _, p := range collidePairs[base] {
+		if (nonNull || outerNonNull && wrap == "single-for-list") && (p.lit == "null" || nonNull && wrap == "single-for-list" && p.lit == "[null]") {
+			continue
+		}
+		pairs = append(pairs, p)
+	}
+	if len(pairs) == 0 { // String has only the null pair
+		nonNull, outerNonNull = false, false
+		pairs = collidePairs[base]
+	}
+	typ := base
+	if nonNull {
+		typ += "!"
+	}
+	switch wrap {
+	case "list", "single-for-list":
+		typ = "[" + typ + "]"
+	case "list-of-list":
+		typ = "[[" + typ + "]]"
+	}
+	if outerNonNull {
+		typ += "!"
+	}
+	necho := rapid.IntRange(1, 2).Draw(t, "cechoes")
+	for i := 0; i < necho; i++ {
+		s.Echoes = append(s.Echoes, ir.Echo{Name: fmt.Sprintf("f%d", i), Arg: ir.Field{Name: "v", Type: typ}})
+	}
+	wrapLit := func(x string) string {
+		switch wrap {
+		case "list":
+			return "[" + x + "]"
+		case "list-of-list":
+			return "[[" + x + "]]"
+		}
+		return x
+	}
+	p := pairs[rapid.IntRange(0, len(pairs)-1).Draw(t, "cpair")]
+	args := []string{wrapLit(p.lit), wrapLit(stringLiteralOf(p.json))}
+	if rapid.Bool().Draw(t, "corder") {
+		args[0], args[1] = args[1], args[0]
+	}
+	switch rapid.IntRange(0, 3).Draw(t, "cthird") {
+	case 0:
+		args = append(args, args[0])
+	case 1:
+		q := pairs[rapid.IntRange(0, len(pairs)-1).Draw(t, "cpair2")]
+		args = append(args, wrapLit(stringLiteralOf(q.json)))
+	case 2:
+		q := pairs[rapid.IntRange(0, len(pairs)-1).Draw(t, "cpair3")]
+		args = append([]string{wrapLit(q.lit)}, args...)
+	}
+	c := Case{VarsForm: rapid.SampledFrom([]string{"absent", "object", "null"}).Draw(t, "cvarsform")}
+	var sels []string
+	for i, a := range args {
+		fu := FieldUse{Key: fmt.Sprintf("r%d", i), Echo: fmt.Sprintf("f%d", rapid.IntRange(0, necho-1).Draw(t, "cecho")), Arg: a, Mode: "literal"}
+		c.Fields = append(c.Fields, fu)
+		sels = append(sels, sel(fu))
+	}
+	c.Query = "{ " + strings.Join(sels, " ") + " }"
+	switch c.VarsForm {
+	case "object":
+		c.Vars = "{}"
+	case "null":
+		c.Vars = "null"
+	}
+	c.Schema = *s
+	return c
+}
+
+// genInvalidUTF8: one block string literal that contains a byte sequence that is not UTF-8.
+func genInvalidUTF8(t *rapid.T) Case {
+	s := &ir.Schema{Scalars: []string{"JSON"}, Echoes: []ir.Echo{{Name: "f0", Arg: ir.Field{Name: "v", Type: "String"}}, {Name: "f1", Arg: ir.Field{Name: "v", Type: "JSON"}}}}
+	g := &ir.Gen{T: t, S: s, Fancy: true}
+	lit := g.BlockStringWith(rapid.SampledFrom(ir.InvalidUTF8Pieces).Draw(t, "badpiece"))
+	fu := FieldUse{Key: "r0", Echo: "f0", Arg: lit, Mode: "literal"}
+	if rapid.Bool().Draw(t, "nested") {
+		fu = FieldUse{Key: "r0", Echo: "f1", Arg: "{k: [" + lit + "]}", Mode: "literal"}
+	}
+	return Case{Schema: *s, Fields: []FieldUse{fu}, Query: "{ " + sel(fu) + " }", VarsForm: "absent", Lenient: true}
 }
 
 func genCase(t *rapid.T) Case {
+	switch rapid.SampledFrom([]string{"general", "collision", "general", "general", "collision", "general", "general", "invalid-utf8", "general", "general"}).Draw(t, "family") {
+	case "collision":
+		return genCollision(t)
+	case "invalid-utf8":
+		return genInvalidUTF8(t)
+	}
 	s := ir.GenSchema(t)
 	g := &ir.Gen{T: t, S: s, Fancy: true}
 	var c Case
